@@ -214,20 +214,21 @@ theorem kronAll_pair (vpre : List (List K)) (u v : List K) (vpost : List (List K
 /-- C07 `perm_sorts`, the semantic loop invariant, any number of subsystems: if the accumulated matrix maps `x₀`
 to the tensor product of the vectors in the current order, the loop of `calc_permutation_matrix` returns a matrix
 mapping `x₀` to the tensor product in the final order, which is ascending in the names and a rearrangement of the
-(name, vector) pairs. -/
+(name, vector) pairs (same number of names and of vectors, so nothing is truncated by the `zip`). -/
 theorem calcPermLoop_semantic (fuel : Nat) (order sizes : List Nat) (perm : DMat K)
     (vs : List (List K)) (x0 : List K)
     (hlen : order.length = sizes.length) (hvs : vs.map List.length = sizes) (hr : perm.r = prodL sizes)
     (hinv : perm.mulVecL x0 = .ok (kronAll vs)) (hf : inv order < fuel) :
     ∃ P o s vs', calcPermLoop (K := K) leftPerm fuel order sizes perm = .ok (P, o, s) ∧
-      P.mulVecL x0 = .ok (kronAll vs') ∧ o.Pairwise (· ≤ ·) ∧ (o.zip vs').Perm (order.zip vs) := by
+      P.mulVecL x0 = .ok (kronAll vs') ∧ o.Pairwise (· ≤ ·) ∧ (o.zip vs').Perm (order.zip vs) ∧
+      o.length = order.length ∧ vs'.length = vs.length := by
   induction fuel generalizing order sizes perm vs with
   | zero => omega
   | succ f ih =>
     unfold calcPermLoop
     split
     · rename_i hc
-      exact ⟨_, _, _, vs, rfl, hinv, checkCross_none _ hc, List.Perm.refl _⟩
+      exact ⟨_, _, _, vs, rfl, hinv, checkCross_none _ hc, List.Perm.refl _, rfl, rfl⟩
     · rename_i pos hc
       obtain ⟨pre, a, b, post, rfl, rfl, hlt⟩ := checkCross_some _ _ hc
       subst hvs
@@ -256,7 +257,7 @@ theorem calcPermLoop_semantic (fuel : Nat) (order sizes : List Nat) (perm : DMat
       have hnew : (⟨M.r, perm.c, M.m.mul (hmul ▸ perm.m)⟩ : DMat K).mulVecL x0
           = .ok (kronAll (vpre ++ v :: u :: vpost)) := by
         rw [mul_mulVecL M perm _ hmulok x0 _ hinv, kronAll_pair, hMv, kronAll_pair]
-      obtain ⟨P, o, s, vs', h, hP, hs, hp⟩ := ih (pre ++ b :: a :: post)
+      obtain ⟨P, o, s, vs', h, hP, hs, hp, hlo, hlv⟩ := ih (pre ++ b :: a :: post)
         (vpre.map List.length ++ v.length :: u.length :: vpost.map List.length)
         ⟨M.r, perm.c, M.m.mul (hmul ▸ perm.m)⟩ (vpre ++ v :: u :: vpost)
         (by simp at hvl ⊢; omega)
@@ -264,7 +265,7 @@ theorem calcPermLoop_semantic (fuel : Nat) (order sizes : List Nat) (perm : DMat
         (by simp only [hMr, prodL_append, prodL_cons]; ring)
         hnew
         (by have := inv_append_swap pre a b post hlt; omega)
-      refine ⟨P, o, s, vs', h, hP, hs, hp.trans ?_⟩
+      refine ⟨P, o, s, vs', h, hP, hs, hp.trans ?_, by simpa using hlo, by simpa using hlv⟩
       have hl : pre.length = vpre.length := by omega
       rw [List.zip_append hl, List.zip_append hl]
       exact List.Perm.append_left _ (List.Perm.swap _ _ _)
@@ -274,14 +275,15 @@ theorem calcPermLoop_semantic (fuel : Nat) (order sizes : List Nat) (perm : DMat
 the names ascending. -/
 theorem calcPerm_sorts (order : List Nat) (vs : List (List K)) (hlen : order.length = vs.length) :
     ∃ (P : DMat K) (o : List Nat) (vs' : List (List K)), calcPerm (K := K) order (vs.map List.length) = .ok P ∧
-      P.mulVecL (kronAll vs) = .ok (kronAll vs') ∧ o.Pairwise (· ≤ ·) ∧ (o.zip vs').Perm (order.zip vs) := by
+      P.mulVecL (kronAll vs) = .ok (kronAll vs') ∧ o.Pairwise (· ≤ ·) ∧ (o.zip vs').Perm (order.zip vs) ∧
+      o.length = order.length ∧ vs'.length = vs.length := by
   have hid : (DMat.eye (prodL (vs.map List.length)) : DMat K).mulVecL (kronAll vs) = .ok (kronAll vs) := by
     rw [mulVecL_of_length _ _ (by simp [DMat.eye, kronAll_length])]
     simp [DMat.eye, one_mulVec, ofList_toList]
-  obtain ⟨P, o, s, vs', h, hP, hs, hp⟩ := calcPermLoop_semantic (K := K) (order.length * order.length + 1) order
+  obtain ⟨P, o, s, vs', h, hP, hs, hp, hlo, hlv⟩ := calcPermLoop_semantic (K := K) (order.length * order.length + 1) order
     (vs.map List.length) (DMat.eye (prodL (vs.map List.length))) vs (kronAll vs) (by simpa using hlen) rfl rfl hid
     (by have := inv_le_sq order; omega)
-  exact ⟨P, o, vs', by simp [calcPerm, h, Except.map], hP, hs, hp⟩
+  exact ⟨P, o, vs', by simp [calcPerm, h, Except.map], hP, hs, hp, hlo, hlv⟩
 
 end listlevel
 
